@@ -118,12 +118,8 @@ macro_rules! with_elem {
                 type $E = Val<TrkZ>;
                 $body
             }
-            5 => {
-                type $E = Option<u32>;
-                $body
-            }
             _ => {
-                type $E = ();
+                type $E = Option<u32>;
                 $body
             }
         }
